@@ -579,18 +579,31 @@ for _uname, _u in [('a', 'a'), ('digit', '1'), ('hyphen', '-'), ('underscore', '
             if _tname == 'dimension unit' and _pos in ('selector', 'property name'):
                 continue
             TOKEN_WIDTH[f'{_tname} with {_uname} x n, {_pos}'] = (_mode, (lambda n, a=_pre + _head, u=_u, z=_tail + _post: a + u * n + z))
-for _tname, _fmt in [('integer', '{d}'), ('signed integer', '+{d}'), ('fraction digits', '0.{d}'), ('integer and fraction', '{d}.5'), ('both long', '{d}.{d}'), ('dimension', '{d}px'),
-                     ('dimension with fraction', '{d}.5em'), ('percentage', '{d}%'), ('percentage with fraction', '{d}.5%'), ('leading zeros', '{z}1'), ('trailing zeros', '1.{z}'),
-                     ('zero dimension', '{z}px'), ('exponent look-alike', '1e{d}'), ('unicode-range', 'U+{d}'), ('hash digits', '#{d}'), ('rgb argument', 'rgb({d},{d},{d})'),
-                     ('hsl argument', 'hsl({d},{d}%,{d}%)'), ('hsl fraction argument', 'hsl({d}.5,{d}.5%,1%)'), ('rgb percentage argument', 'rgb({d}%,{d}.5%,1%)'),
-                     ('hsla alpha', 'hsla(1,2%,3%,{d})'), ('hue only long', 'hsl({d},2%,3%)'), ('rgba alpha', 'rgba(1,2,3,0.{d})'), ('function argument', 'f({d})'), ('calc operand', 'calc({d} + {d}.5px)'),
-                     ('nth argument', None)]:
-    if _fmt is None:
-        TOKEN_WIDTH[f'number run: {_tname}, selector'] = ('sheet', (lambda n: 'a:nth-child(' + '1' * n + 'n+' + '1' * n + '){b:c}'))
-        continue
-    for _pos, _mode, _pre, _post in [('declaration value', 'sheet', 'a{b:', '}'), ('style attribute value', 'style', 'b:', ''), ('known property', 'style', 'width:', ''),
-                                     ('@variables value', 'sheet', '@variables {x:', '}'), ('@media feature', 'sheet', '@media all and (min-width:', '){a{b:c}}'), ('top level', 'sheet', '', '')]:
-        TOKEN_WIDTH[f'number run: {_tname}, {_pos}'] = (_mode, (lambda n, f=_fmt, a=_pre, z=_post: a + f.replace('{d}', '1' * n).replace('{z}', '0' * n) + z))
+# number runs: {d} = a run of n digits 1, {z} = a run of n zeros, {s} = the sign of the number: every family exists unsigned (the family
+# name without a sign), with '+' and with '-' in front of EVERY number of the literal (the conversions float()/int() and the range checks
+# behind them see a different value for each sign: +inf / -inf, a negative int, '-0')
+SIGNS = (('', ''), ('plus sign', '+'), ('minus sign', '-'))
+NUMBER_FORMATS = [('integer', '{s}{d}'), ('signed integer', '+{d}'), ('fraction digits', '{s}0.{d}'), ('fraction without integer part', '{s}.{d}'), ('integer and fraction', '{s}{d}.5'),
+                  ('both long', '{s}{d}.{d}'), ('dimension', '{s}{d}px'),
+                  ('dimension with fraction', '{s}{d}.5em'), ('percentage', '{s}{d}%'), ('percentage with fraction', '{s}{d}.5%'), ('leading zeros', '{s}{z}1'), ('trailing zeros', '{s}1.{z}'),
+                  ('zero dimension', '{s}{z}px'), ('zero with fraction', '{s}{z}.{z}'), ('exponent look-alike', '{s}1e{d}'), ('unicode-range', 'U+{d}'), ('hash digits', '#{d}'),
+                  ('rgb argument', 'rgb({s}{d},{s}{d},{s}{d})'),
+                  ('hsl argument', 'hsl({s}{d},{s}{d}%,{s}{d}%)'), ('hsl fraction argument', 'hsl({s}{d}.5,{s}{d}.5%,1%)'), ('rgb percentage argument', 'rgb({s}{d}%,{s}{d}.5%,1%)'),
+                  ('hsla alpha', 'hsla(1,2%,3%,{s}{d})'), ('hue only long', 'hsl({s}{d},2%,3%)'), ('rgba alpha', 'rgba(1,2,3,{s}0.{d})'), ('function argument', 'f({s}{d})'),
+                  ('function argument with fraction', 'f({s}{d}.5)'), ('calc operand', 'calc({s}{d} + {s}{d}.5px)'),
+                  ('nth argument', None)]
+for _tname, _fmt in NUMBER_FORMATS:
+    for _sname, _s in SIGNS:
+        _label = _tname + (f' with {_sname}' if _sname else '')
+        if _fmt is None:
+            # an+b: the sign applies to the step a; the offset b is joined with '+' (unsigned family) or with the same sign
+            TOKEN_WIDTH[f'number run: {_label}, selector'] = ('sheet', (lambda n, s=_s: 'a:nth-child(' + s + '1' * n + 'n' + (s or '+') + '1' * n + '){b:c}'))
+            continue
+        if _s and '{s}' not in _fmt or (_tname, _s) == ('integer', '+'):
+            continue  # no number in a position that takes a sign; '+' integer is the family 'signed integer'
+        for _pos, _mode, _pre, _post in [('declaration value', 'sheet', 'a{b:', '}'), ('style attribute value', 'style', 'b:', ''), ('known property', 'style', 'width:', ''),
+                                         ('@variables value', 'sheet', '@variables {x:', '}'), ('@media feature', 'sheet', '@media all and (min-width:', '){a{b:c}}'), ('top level', 'sheet', '', '')]:
+            TOKEN_WIDTH[f'number run: {_label}, {_pos}'] = (_mode, (lambda n, f=_fmt.replace('{s}', _s), a=_pre, z=_post: a + f.replace('{d}', '1' * n).replace('{z}', '0' * n) + z))
 TOKEN_SIZES = (4, 8, 16, 32, 64, 128, 256, 512, 1024, 2048, 4096, 8192)   # thorough: every size is twice its predecessor
 TOKEN_SIZES_QUICK = (8, 16, 32, 64, 256, 512, 4096, 8192)                 # quick: the pairs 8-16-32-64, 256-512, 4096-8192
 DEPTHS = (5, 10, 20, 25, 50, 100)          # pairs (d, 2d): 5-10, 10-20, 25-50, 50-100
@@ -681,7 +694,8 @@ def sweeps(ctx):
     _report(ctx, 'nesting / width sweeps', agg, index)
     ctx.bounded.append({'name': 'nesting and width sweeps', 'evaluations': n, 'distinct_nontrivial': len(done),
                         'rule': f'{len(NESTING)} nesting families (each of ( [ {{ and functions in selector, rule, at-rule prelude, value, property-name and priority position, balanced and cut off) at depths {DEPTHS}, '
-                                f'{len(WIDTH)} width families at sizes {WIDTHS}, the {len(numfams)} number families also at the digit counts {DIGIT_COUNTS}, and {len(tnames)} token-internal families (runs of one character or escape inside a string / url( / comment - closed, cut by a line feed or by the '
+                                f'{len(WIDTH)} width families at sizes {WIDTHS}, the {len(numfams)} number families ({len(NUMBER_FORMATS)} literal shapes - integer, fraction, dimension, percentage, zeros, colour / function / calc / nth arguments - '
+                                f'each unsigned, with + and with - in front of every number, in 6 positions) also at the digit counts {DIGIT_COUNTS}, and{len(tnames)} token-internal families (runs of one character or escape inside a string / url( / comment - closed, cut by a line feed or by the '
                                 f'end of input - inside identifiers, at-keywords, hashes, function names, units, and digit runs in every numeric position) at sizes {TOKEN_SIZES_QUICK if ctx.tier == "quick" else TOKEN_SIZES}; '
                                 f'whole contract per input; time clause: result within {budget:.0f} s of CPU time ({"0.5" if ctx.tier == "quick" else f"{budget:.0f}"} s + 0.5 ms per unit of size for token-internal families) and t(2x)/t(x) <= {RATIO_LIMIT:.0f} '
                                 f'(times under {TIME_FLOOR * 1000:.0f} ms count as {TIME_FLOOR * 1000:.0f} ms); a family stops at the first size that misses the bound; distinct = (family, size) evaluated',
